@@ -19,6 +19,17 @@ pub(crate) struct Env {
     pub(crate) env_p: *const *const u8,
 }
 
+/// Verification hook: install the process environment pointers the start code would have set.
+/// Only compiled with the `verif-hooks` feature.
+/// # Safety
+/// The pointers must designate a valid argv / envp block for as long as `env` functions are used
+#[cfg(feature = "verif-hooks")]
+pub unsafe fn verif_set_env(arg_c: u64, arg_v: *const *const u8, env_p: *const *const u8) {
+    ENV.arg_c = arg_c;
+    ENV.arg_v = arg_v;
+    ENV.env_p = env_p;
+}
+
 #[derive(Debug, Copy, Clone)]
 pub enum VarError {
     Missing,
